@@ -10,7 +10,7 @@ ID = 'C13'
 LEVEL = 'exploration'
 RULE = ('documents = every sequence of <= n headings over the class levels (chapter..subsubsection, arbitrary level jumps), each '
         'unit with a unique body marker (plus text before the first heading), variants {plain, footnote + label + colliding '
-        'titles with forbidden characters, identical twin units, heading-only last unit}; plus section + every sequence over '
+        'titles with forbidden characters, identical twin units, heading-only last / first unit}; plus section + every sequence over '
         'subsubsection..subsubparagraph and the full 7-level chain; x split-level -10..6 x filename templates x bad-chars (x substitute: hyphen, empty, two underscores) x renderer/theme. '
         'Oracle: a unit owns a file iff its level <= split level (one file for a single-name template); body markers are '
         'partitioned over the files exactly as ownership predicts, each exactly once, in document order, footnote text after '
@@ -47,6 +47,8 @@ def twin_units(units, variant):
     the heading-only last unit of variant 'bare'"""
     if variant == 'bare' and units:
         return (len(units) - 1,)
+    if variant == 'bare0' and len(units) >= 2:
+        return (0,)
     if variant == 'twins' and len(units) >= 2 and units[-1] == units[-2]:
         return (len(units) - 2, len(units) - 1)
     return ()
@@ -56,14 +58,15 @@ def document(cls, units, variant):
     body = [marker('b', 0) + ' ']
     twins = twin_units(units, variant)
     for i, u in enumerate(units):
-        if i in twins:
+        if i in twins and variant == 'twins':
             # two structurally identical units: same title, same text, same footnote
             body.append('\\%s{Twin}Same bqppz\\footnote{fqppz}\n\n' % u)
             continue
-        if variant == 'bare' and i == len(units) - 1:
-            body.append('\\%s{%s}\n\n' % (u, marker('t', i)))        # a heading-only unit at the end of the document
+        if i in twins and variant in ('bare', 'bare0'):
+            # a heading-only unit: directly followed by the end of the document / the next heading
+            body.append('\\%s{%s}\n' % (u, marker('t', i)))
             continue
-        if variant in ('plain', 'twins', 'bare'):
+        if variant in ('plain', 'twins', 'bare', 'bare0'):
             title = marker('t', i)
         else:
             title = 'Same: title/x'           # colliding titles with forbidden characters
@@ -268,6 +271,8 @@ def extra_blocks(n):
             blocks.append(('book', units, 'bare', 'default', None, 'XHTML', [-10, 0, 1, 2, 3, 6], False))
             if len(units) <= 2:
                 blocks.append(('book', units, 'bare', 'idtitle', None, 'HTML5', [0, 1, 2, 3], False))
+            if len(units) >= 2:
+                blocks.append(('book', units, 'bare0', 'default', None, 'XHTML', [0, 1, 2, 3], False))
     deep = [()]
     for k in range(1, n + 1):
         deep += list(itertools.product(DEEP_UNITS, repeat=k))
